@@ -74,14 +74,31 @@ class TraceCtx:
         self.it, self.tracer, self.root, self.graph, self.node_cls = it, tracer, root, graph, node_cls
         self.names = {}
         self.used = {}
+        self.names_used = set()
         for name, m in it.call(it.getattr(root, 'named_modules'), [], {}):
             self.names.setdefault(id(m), name)
 
-    def fresh_name(self, base):
-        base = base.replace('.', '_')
-        k = self.used.get(base, 0)
-        self.used[base] = k + 1
-        return base if k == 0 else f'{base}_{k}'
+    def fresh_name(self, candidate):
+        """torch.fx.graph._Namespace.create_name"""
+        import re, keyword, builtins
+        candidate = re.sub('[^0-9a-zA-Z_]+', '_', candidate) or '_unnamed'
+        if candidate[0].isdigit():
+            candidate = '_' + candidate
+        m = re.match(r'^([a-zA-Z_][0-9a-zA-Z_]*?)(?:_(\d+))?$', candidate)
+        if m is None:
+            base, num = candidate, None
+        else:
+            base, num = m.group(1), (int(m.group(2)) if m.group(2) else None)
+        candidate = base if num is None else f'{base}_{num}'
+        if not num:
+            num = self.used.get(base, 0)
+        illegal = lambda c: c in keyword.kwlist or c in builtins.__dict__ or c in ('inf', 'nan', 'NoneType', 'torch', 'device', 'fx_pytree', 'pytree')
+        while candidate in self.names_used or illegal(candidate):
+            num += 1
+            candidate = f'{base}_{num}'
+        self.names_used.add(candidate)
+        self.used[base] = num
+        return candidate
 
     def add(self, op, target, args, kwargs, name=None):
         if name is None:
